@@ -16,6 +16,10 @@ def ProcessOptions(options, document):
     """ Process package options """
     options = options or dict()
     new_options = dict()
+    # The bibliography unit is what the document class made of it (a section
+    # in an article, a chapter in a book) unless sectionbib says otherwise
+    current = document.context['bibliography']
+    bibunit = {'counter': current.counter, 'level': current.level}
     punct = {'post': bstyleoption(', '),
              'open': bstyleoption('('),
              'close':bstyleoption(')'),
@@ -50,7 +54,7 @@ def ProcessOptions(options, document):
         elif key == 'colon':
             punct['sep'] = ';'
         elif key == 'sectionbib':
-            Base.bibliography.level = Base.section.level
+            bibunit['level'] = Base.section.level
         elif key == 'sort':
             pass
         elif key in ['sort&compress','sortandcompress']:
@@ -59,9 +63,19 @@ def ProcessOptions(options, document):
             pass
         elif key == 'nonamebreak':
             pass
-    document.userdata['natbib'] = {**options, **new_options, 'punctuation': punct}
+    document.userdata['natbib'] = {**options, **new_options, 'punctuation': punct,
+                                   'bibunit': bibunit}
 
 class bibliography(Base.bibliography):
+
+    def invoke(self, tex):
+        # Counter and level of the bibliography unit belong to the document
+        # (see ProcessOptions), not to this class, which all documents share
+        bibunit = self.ownerDocument.userdata.get('natbib', {}).get('bibunit')
+        if bibunit:
+            self.counter = bibunit['counter']
+            self.level = bibunit['level']
+        return Base.bibliography.invoke(self, tex)
 
     class setcounter(Base.Command):
         # Added so that setcounters in the aux file don't mess counters up
